@@ -309,10 +309,155 @@ def handlePipe (cfg : Cfg) (input impl : Json) : R Reply := do
   pure { agree := agree, specModel := sm, specImpl := si, diff := diff, fail := fail,
          nontrivial := results.length ≥ 2, tags := tags }
 
+/-! ### node-level cases -/
+
+structure PItem where
+  p      : Payload
+  path   : String
+  script : List Res
+
+def pitemOf (j : Json) : R PItem := do
+  pure { p := ← payload (← field j "p"), path := ← strF j "path", script := ← listF resOf j "script" }
+
+def handlePlugin (cfg : Cfg) (input impl : Json) : R Reply := do
+  let items ← listF pitemOf input "pitems"
+  let tick ← natF input "retryTick"
+  let o ← field impl "plugin"
+  let checks ← listF (fun j => do pure ((← natF j "ix"), ({ t := ← natF j "t", att := ← natF j "att", block := ← natF j "b" } : Check))) o "checks"
+  let unknown ← natF o "unknown"
+  let perf ← listF checkResult o "perf"
+  let obsErr ← strF o "obsErr"
+  let per := items.zipIdx.map fun (it, i) => (it, (checks.filter (·.1 == i)).map (·.2))
+  -- model: how often each unit of work is checked and what is staged in the end
+  let wantPerf := items.flatMap fun it => planStaged it.script
+  let aCount := per.all fun (it, cs) => cs.length == planChecks it.script
+  let aPerf := perf.isPerm wantPerf
+  let agree := aCount && aPerf && unknown == 0 && obsErr == ""
+  let si := per.all (fun (it, cs) => itemOk cfg tick it.p it.script cs perf) && unknown == 0 &&
+    perf.all (fun r => items.any (·.p.workID == r.workID))
+  -- the model's own timeline: every retry on the first tick of the grid after its interval
+  let modelChecks (it : PItem) (t0 : Nat) : List Check :=
+    let rec go (sc : List Res) (t att : Nat) (fuel : Nat) : List Check :=
+      match fuel, sc with
+      | 0, _ => []
+      | _, [] => []
+      | fuel + 1, r :: rs =>
+        { t := t, att := att, block := it.p.trigger.blockNumber } ::
+          (if r.retryableFail then go rs (((t + effInterval cfg r.retryInterval) / tick + 1) * tick) (att + 1) fuel else [])
+    go it.script t0 0 (it.script.length + 1)
+  let sm := per.all fun (it, cs) =>
+    itemOk cfg tick it.p it.script (modelChecks it ((cs.head?.map (·.t)).getD tick)) wantPerf
+  let bad := per.find? fun (it, cs) => !itemOk cfg tick it.p it.script cs perf
+  let fail :=
+    if si then "" else
+    match bad with
+    | some (it, cs) => s!"{explainItem cfg tick it.p it.script cs perf} [entered through the {it.path} flow]"
+    | none => if unknown != 0 then "the pipeline was asked about a payload that was never fed" else "node stages a result of no fed unit of work"
+  let diff :=
+    if agree then "" else
+    if !aCount then s!"checks per unit of work: model={items.map fun it => planChecks it.script} impl={per.map fun (_, cs) => cs.length}"
+    else if !aPerf then s!"staged: model={wantPerf.map showResult} impl={perf.map showResult}"
+    else s!"unknown={unknown} obsErr={obsErr}"
+  let tags :=
+    (items.map fun it => s!"plugin:{it.path}").eraseDups ++
+    (items.filterMap fun it => if it.script.length > 1 then some s!"plugin-retry:{it.path}" else none).eraseDups ++
+    (if items.any (fun it => it.script.length > 2) then ["plugin-retry-of-retry"] else []) ++
+    (if items.any (fun it => it.script.any fun r => r.retryableFail && r.retryInterval ≤ 0) then ["plugin-default-interval"] else []) ++
+    (if per.any (fun (it, cs) => (it.script.zip (cs.zip cs.tail)).any fun (r, c, c') => c'.t == c.t + effInterval cfg r.retryInterval + tick) then ["plugin-tick-boundary"] else []) ++
+    (if !wantPerf.isEmpty then ["plugin-staged"] else []) ++
+    (if (fieldD input "decoy" (.bool false)) == .bool true then ["plugin-decoy"] else [])
+  pure { agree := agree, specModel := sm, specImpl := si, diff := diff, fail := fail,
+         nontrivial := items.any (fun it => it.script.length > 1), tags := tags }
+
+/-! ### concurrent Enqueue ∥ Dequeue on the real queue: linearize, replay, judge -/
+
+def stressPayload (i b : Nat) : Payload :=
+  { upkeepID := "", trigger := { blockNumber := b, blockHash := "", ext := none }, workID := s!"w{i}" }
+
+def pairsOf (j : Json) : R (List (Nat × Nat)) := do
+  (← asList j).mapM fun x => do
+    match ← asList x with
+    | [a, b] => pure ((← asNat a), (← asNat b))
+    | _ => throw "pair expected"
+
+/-- a single model path over a log, taking for each dequeue the iteration order "what came out, then the rest" -/
+def modelOuts (cfg : Cfg) (log : List Ev) : List (List Payload) :=
+  (log.foldl (fun (st : Queue × List (List Payload)) ev =>
+    match ev with
+    | .enq t r => (enqueue cfg t st.1 r, st.2)
+    | .deq t n out =>
+      let oks := out.map (·.workID)
+      let d := dequeue cfg t n (oks ++ (keys st.1).filter (fun k => !oks.contains k)) st.1
+      (d.1, d.2 :: st.2)) (([], []) : Queue × List (List Payload))).2.reverse
+
+def handleStress (cfg : Cfg) (input impl : Json) : R Reply := do
+  let si_ ← field input "stress"
+  let w ← natF si_ "w"
+  let g ← natF si_ "g"
+  let per ← natF si_ "per"
+  let n1 ← natF si_ "n1"
+  let o ← field impl "stress"
+  let t0 ← natF o "t0"
+  let t1 ← natF o "t1"
+  let t2 ← natF o "t2"
+  let bad ← natF o "bad"
+  let enq ← listF (listOf asNat) o "enq"
+  let d1s ← listF asNat o "d1s"
+  let d1 ← pairsOf (← field o "d1")
+  let d2 ← pairsOf (← field o "d2")
+  let (inv1, ret1) ← match d1s with
+    | [a, b] => pure (a, b)
+    | _ => throw "d1s"
+  -- (inv, ret, id) of every Enqueue of check block 2
+  let rec stamps : List Nat → List (Nat × Nat) | a :: b :: r => (a, b) :: stamps r | _ => []
+  let ops := enq.zipIdx.flatMap fun (st, gi) => (stamps st).zipIdx.map fun ((a, b), j) => (a, b, gi * per + j)
+  let complete := enq.length == g && enq.all (fun st => st.length == 2 * per)
+  let s1 := d1.map (·.1)
+  -- linearization: an Enqueue whose work id the concurrent Dequeue did not hand out took effect before it
+  -- (the id was then not due any more), unless it was invoked only after the Dequeue had returned
+  let isBefore := fun (x : Nat × Nat × Nat) => !s1.contains x.2.2 && x.1 < ret1
+  let sortOps := fun (l : List (Nat × Nat × Nat)) => l.mergeSort (fun a b => a.1 ≤ b.1)
+  let before := sortOps (ops.filter isBefore)
+  let after := sortOps (ops.filter (fun x => !isBefore x))
+  -- real-time order: an Enqueue that had returned before the Dequeue was invoked cannot come after it
+  let realTime := after.all (fun x => x.2.1 > inv1)
+  let pl := fun (l : List (Nat × Nat)) => l.map fun (i, b) => stressPayload i b
+  let log : List Ev :=
+    (List.range w).map (fun i => Ev.enq t0 { payload := stressPayload i 1, interval := 1 }) ++
+    before.map (fun x => Ev.enq t1 { payload := stressPayload x.2.2 2, interval := 1 }) ++
+    [Ev.deq t1 n1 (pl d1)] ++
+    after.map (fun x => Ev.enq t1 { payload := stressPayload x.2.2 2, interval := 1 }) ++
+    [Ev.deq t2 (w + 10) (pl d2)]
+  let outs := modelOuts cfg log
+  let agree := complete && bad == 0 && realTime && outs == [pl d1, pl d2]
+  let qok := queueOk cfg log
+  let si := complete && bad == 0 && realTime && qok
+  let mlog := (log.foldl (fun (st : List Ev × List (List Payload)) ev =>
+      match ev, st.2 with
+      | .deq t n _, o :: os => (st.1 ++ [Ev.deq t n o], os)
+      | e, os => (st.1 ++ [e], os)) (([], outs) : List Ev × List (List Payload))).1
+  let sm := if mlog == log then qok else queueOk cfg mlog
+  let lost := ops.filter fun x => !(d2.contains (x.2.2, 2)) && !(d1.contains (x.2.2, 2))
+  let fail :=
+    if si then "" else
+    if !complete || bad != 0 then "stress bookkeeping incomplete"
+    else if !realTime then "not linearizable: a Dequeue handed out the old check block of a work id whose newer block had already been enqueued"
+    else s!"{explainQueue cfg log} [concurrent Enqueue/Dequeue, linearized]"
+  let diff := if agree then "" else
+    s!"lost newer blocks: {lost.length} e.g. {(lost.take 3).map (·.2.2)}; model D1={(outs.head?.map (·.length))} impl D1={d1.length}; model D2={((outs.drop 1).head?.map (·.length))} impl D2={d2.length}"
+  let tags := ["stress"] ++
+    (if !before.isEmpty && !after.isEmpty then ["stress:dequeue-amid-enqueues"] else []) ++
+    (if ops.any (fun x => x.1 < ret1 && x.2.1 > inv1) then ["stress:overlapping-calls"] else []) ++
+    (if d1.length ≥ n1 then ["stress:n-reached"] else [])
+  pure { agree := agree, specModel := sm, specImpl := si, diff := diff, fail := fail,
+         nontrivial := !before.isEmpty && !after.isEmpty, tags := tags }
+
 def handle (input impl : Json) : R Reply := do
   match ← strF input "kind" with
   | "pipe" => handlePipe Cfg.repo input impl
   | "queue" => handleQueue Cfg.repo input impl
+  | "plugin" => handlePlugin Cfg.repo input impl
+  | "stress" => handleStress Cfg.repo input impl
   | k => throw s!"unknown C12 case kind {k}"
 
 end AutoVerif.C12
